@@ -38,6 +38,10 @@ type MatchCase struct {
 	// StringForm[i][j]: in the config route write a single value of condition j of
 	// selector i as a plain string instead of a one-element list.
 	StringForm [][]bool `json:"string_form,omitempty"`
+	// HoldTail: the chain ends with an action without selector that holds (1) or collapses into a held
+	// event (2) some events, like join does (per event, 0 = pass). While it waits for the next event of the
+	// stream it is "busy" - which must not change what the selectors of the OTHER actions decide.
+	HoldTail []int `json:"hold_tail,omitempty"`
 }
 
 func genMatch(t *rapid.T) MatchCase {
@@ -61,17 +65,27 @@ func genMatch(t *rapid.T) MatchCase {
 	for _, e := range evs {
 		c.Events = append(c.Events, e.Encode())
 	}
+	if rapid.IntRange(0, 2).Draw(t, "hold_tail") == 0 {
+		for i := range c.Events {
+			h := rapid.SampledFrom([]int{0, 1, 1, 2, 2}).Draw(t, "hold")
+			if i == len(c.Events)-1 {
+				h = 0 // the last event flushes whatever is held: no run is left to a time-out
+			}
+			c.HoldTail = append(c.HoldTail, h)
+		}
+	}
 	return c
 }
 
 // ---------------------------------------------------------------- harness plugins
 
 type recorder struct {
-	mu      sync.Mutex
-	called  map[[2]int64]int
-	commits int
-	want    int
-	done    chan struct{}
+	holds, collapsed int
+	mu               sync.Mutex
+	called           map[[2]int64]int
+	commits          int
+	want             int
+	done             chan struct{}
 }
 
 func (r *recorder) mark(action int, offset int64) {
@@ -111,6 +125,52 @@ func (a *probeAction) Do(e *pipeline.Event) pipeline.ActionResult {
 
 func probeFactory() (pipeline.AnyPlugin, pipeline.AnyConfig) { return &probeAction{}, &probeConfig{} }
 
+// holdAction plays a join-like action at the end of the chain (see MatchCase.HoldTail).
+type holdAction struct {
+	rec  *recorder
+	plan []int
+	ctl  pipeline.ActionPluginController
+	held *pipeline.Event
+}
+
+func (a *holdAction) Start(_ pipeline.AnyConfig, p *pipeline.ActionPluginParams) {
+	a.ctl = p.Controller
+}
+func (a *holdAction) Stop() {}
+func (a *holdAction) flush() {
+	if h := a.held; h != nil {
+		a.held = nil
+		a.ctl.Propagate(h)
+	}
+}
+func (a *holdAction) Do(e *pipeline.Event) pipeline.ActionResult {
+	if e.IsTimeoutKind() {
+		a.flush()
+		return pipeline.ActionDiscard
+	}
+	op := 0
+	if i := int(e.Offset) - 1; i >= 0 && i < len(a.plan) {
+		op = a.plan[i]
+	}
+	switch {
+	case op == 2 && a.held != nil:
+		a.rec.commit() // a collapsed event is finalized without a commit notification: keep the count right
+		a.rec.mu.Lock()
+		a.rec.collapsed++
+		a.rec.mu.Unlock()
+		return pipeline.ActionCollapse
+	case op == 1:
+		a.flush()
+		a.held = e
+		a.rec.mu.Lock()
+		a.rec.holds++
+		a.rec.mu.Unlock()
+		return pipeline.ActionHold
+	}
+	a.flush()
+	return pipeline.ActionPass
+}
+
 const probeType = "verif_c14_probe"
 
 var registerOnce sync.Once
@@ -124,15 +184,19 @@ func registerProbe() {
 type probeInput struct{ rec *recorder }
 
 func (i *probeInput) Start(pipeline.AnyConfig, *pipeline.InputPluginParams) {}
-func (i *probeInput) Stop()                                                  {}
-func (i *probeInput) Commit(*pipeline.Event)                                 { i.rec.commit() }
-func (i *probeInput) PassEvent(*pipeline.Event) bool                         { return true }
+func (i *probeInput) Stop()                                                 {}
+func (i *probeInput) Commit(*pipeline.Event)                                { i.rec.commit() }
+func (i *probeInput) PassEvent(*pipeline.Event) bool                        { return true }
 
-type probeOutput struct{ ctl pipeline.OutputPluginController }
+type probeOutput struct {
+	ctl pipeline.OutputPluginController
+}
 
-func (o *probeOutput) Start(_ pipeline.AnyConfig, p *pipeline.OutputPluginParams) { o.ctl = p.Controller }
-func (o *probeOutput) Stop()                                                       {}
-func (o *probeOutput) Out(e *pipeline.Event)                                       { o.ctl.Commit(e) }
+func (o *probeOutput) Start(_ pipeline.AnyConfig, p *pipeline.OutputPluginParams) {
+	o.ctl = p.Controller
+}
+func (o *probeOutput) Stop()                 {}
+func (o *probeOutput) Out(e *pipeline.Event) { o.ctl.Commit(e) }
 
 // ---------------------------------------------------------------- construction
 
@@ -266,6 +330,19 @@ func observe(c MatchCase) (called map[[2]int64]int, status string) {
 			}
 		}
 	}
+	if len(c.HoldTail) > 0 {
+		plan := append([]int{}, c.HoldTail...)
+		p.AddAction(&pipeline.ActionPluginStaticInfo{
+			PluginStaticInfo: &pipeline.PluginStaticInfo{
+				Type: "verif_c14_hold",
+				Factory: func() (pipeline.AnyPlugin, pipeline.AnyConfig) {
+					return &holdAction{rec: rec, plan: plan}, &probeConfig{}
+				},
+				Config: &probeConfig{},
+			},
+			MatchMode: pipeline.MatchModeAnd,
+		})
+	}
 	p.Start()
 	admitted := true
 	for i, e := range c.Events {
@@ -379,6 +456,9 @@ func runMatch(c MatchCase) *vkit.Outcome {
 		o.Class("match-route=config")
 	} else {
 		o.Class("match-route=programmatic")
+	}
+	if len(c.HoldTail) > 0 {
+		o.Class("match-join-like-action-behind-the-selectors")
 	}
 
 	nT, nF, nU := 0, 0, 0
